@@ -117,6 +117,9 @@ func cmdHist(args []string) {
 	}
 	env := &hist.Env{Known: loadKnown(*known), Build: buildName(), PkgSnap: pkgSnapHook()}
 	wo := &WorkerOut{Prop: *prop, Build: buildName(), From: *from, To: *to, Stats: hist.NewStats()}
+	for _, u := range hist.Unexercised {
+		wo.Stats.Inc("unexercised_new_method/" + u)
+	}
 	var history []*hist.Trace
 	for i := *from; i < *to; i++ {
 		env.KeepTrace = true
